@@ -36,8 +36,9 @@ def pktIn (p : Packet) : PktIn :=
 def Reg (s : Encoder_St) : Prop :=
   s.f_deviceId < 65536 ∧ s.f_streamId < 256 ∧ s.f_sequenceCounter < 65536 ∧ s.f_messageType < 256
 
-/-- the iterator overloads of `encode` are templates over the caller's container (`init(ctx); for (it…) putPacket(*it);
-    return getEncodedData();`): the same composition of the translated methods -/
+/-- the composition `init(ctx); putPacket(p) for every p of the batch; return getEncodedData();` of the translated methods.  The
+    iterator-range overloads of `encode` — member TEMPLATES, translated from their bodies in include/asam_cmp/encoder.h
+    (vlib/srctmpl.py: `Encoder_encode_range_obj`, `Encoder_encode_ptrRange_obj`) — are exactly this composition: `encode_range_eq` -/
 def srcEncodeBatch (fuel : Nat) (s : Encoder_St) (batch : List Packet) (mn mx : Nat) : Option (Encoder_St × List Bytes) := do
   let (s, _) ← Encoder_init_obj s mn mx
   let s ← batch.foldlM (fun s p => (Encoder_putPacket_obj fuel s (pktIn p)).map (·.1)) s
@@ -49,6 +50,41 @@ theorem ofLL_eq (l : EncLL) : ofLL l = stOf l := rfl
 theorem pktIn_eq (p : Packet) : pktIn p = pkOf p := rfl
 theorem toLL_stOf (l : EncLL) : toLL (stOf l) = l := rfl
 theorem st_cases (s : Encoder_St) : ∃ l, s = stOf l := ⟨toLL s, rfl⟩
+
+theorem step_eq (fuel : Nat) :
+    (fun (s : Encoder_St) (x : PktIn) => (do
+        let (s, _) ← Encoder_putPacket_obj fuel s x
+        pure s : Option Encoder_St))
+      = fun s x => (Encoder_putPacket_obj fuel s x).map (·.1) := by
+  funext s x
+  cases Encoder_putPacket_obj fuel s x <;> rfl
+
+theorem foldlM_range (fuel : Nat) (batch : List Packet) (s : Encoder_St) :
+    (batch.map pktIn).foldlM (fun s x => do
+        let (s, _) ← Encoder_putPacket_obj fuel s x
+        pure s) s
+      = batch.foldlM (fun s p => (Encoder_putPacket_obj fuel s (pktIn p)).map (·.1)) s := by
+  rw [step_eq, List.foldlM_map]
+
+/-- the iterator-range overloads of `encode` (over a range of `Packet`s and over a range of `shared_ptr<Packet>`), translated from
+    the template bodies: on the range designating `batch` both are the composition `srcEncodeBatch` -/
+theorem encode_range_eq (fuel : Nat) (s : Encoder_St) (batch : List Packet) (mn mx : Nat) :
+    Encoder_encode_range_obj fuel s (batch.map pktIn) mn mx = srcEncodeBatch fuel s batch mn mx ∧
+    Encoder_encode_ptrRange_obj fuel s (batch.map pktIn) mn mx = srcEncodeBatch fuel s batch mn mx := by
+  unfold Encoder_encode_range_obj Encoder_encode_ptrRange_obj srcEncodeBatch
+  simp only [foldlM_range]
+  cases Encoder_init_obj s mn mx with
+  | none => exact ⟨rfl, rfl⟩
+  | some r =>
+    obtain ⟨s1, u⟩ := r
+    simp only [Option.bind_eq_bind, Option.bind_some]
+    cases List.foldlM (fun s p => Option.map (fun x => x.fst) (Encoder_putPacket_obj fuel s (pktIn p))) s1 batch with
+    | none => exact ⟨rfl, rfl⟩
+    | some s2 =>
+      simp only [Option.bind_some]
+      cases Encoder_getEncodedData_obj s2 with
+      | none => exact ⟨rfl, rfl⟩
+      | some r2 => exact ⟨rfl, rfl⟩
 
 /-- the configuration calls -/
 theorem config_src (s : Encoder_St) (d st : Nat) :
@@ -98,5 +134,17 @@ theorem encode1_src (s : Encoder_St) (p : Packet) (c : Ctx) (fuel : Nat)
     (hs : Reg s) (hc : c.ok = true) (hmax : c.max < 2 ^ 32) (hp : p.Enc ∧ p.mt < 256) (hf : 65536 ≤ fuel) :
     Encoder_encode_obj fuel s (pktIn p) c.min c.max = some (ofLL ((toLL s).encode [p] c).1, ((toLL s).encode [p] c).2) :=
   encode1_src_gen s p c fuel hc hmax hf
+
+/-- the two iterator-range overloads of `encode`, translated from the template bodies, on the range designating `batch`: defined
+    from ANY encoder state, equal to the low-level model -/
+theorem encodeRange_src (s : Encoder_St) (batch : List Packet) (c : Ctx) (fuel : Nat)
+    (hc : c.ok = true) (hmax : c.max < 2 ^ 32) (hf : 65536 ≤ fuel) :
+    Encoder_encode_range_obj fuel s (batch.map pktIn) c.min c.max
+      = some (ofLL ((toLL s).encode batch c).1, ((toLL s).encode batch c).2) ∧
+    Encoder_encode_ptrRange_obj fuel s (batch.map pktIn) c.min c.max
+      = some (ofLL ((toLL s).encode batch c).1, ((toLL s).encode batch c).2) := by
+  obtain ⟨h1, h2⟩ := encode_range_eq fuel s batch c.min c.max
+  rw [h1, h2]
+  exact ⟨encodeBatch_src_gen s batch c fuel hc hmax hf, encodeBatch_src_gen s batch c fuel hc hmax hf⟩
 
 end AsamCmp.SrcEnc
